@@ -9,23 +9,69 @@ from .c18 import effects_of
 
 TECHNIQUE = "static analysis: flag placement by CFG (set exactly on the time-out paths), start/join/kill pairing on every exit of the manager block, copy-before-teardown ordering, write-set (isolation) of the search functions via attribute-store inventory and the ownership analysis, deadline coverage of every path-enumeration site reachable from the search"
 EXPLANATION = (
-    "R1: timed_out is initialised false before the search and set true only on a path where the search was "
-    "cut short (the polling loop's exhaustion branch; the sequential deadline test); every early exit from a "
-    "search loop is such a path. R2: timed_out is what both outputs receive as lcd_warning and what the "
-    "footer / LCDWarning are keyed on. R3: every started worker is joined on every exit of the manager "
-    "block; on the time-out path a live worker is killed with an uncatchable signal (os.kill(pid, SIGKILL) or "
-    "Process.kill(); terminate() = SIGTERM can be caught or ignored through inherited handlers) before it is joined. R4: the shared list is copied "
-    "inside the manager block, after the joins. R5: the search writes only locals, self.timed_out and "
-    "copies - not self.dg, not the kernel's instruction forms (throughput and critical path cannot be "
-    "affected). R6: every path-enumeration site reachable from check_for_loopcarried_dep is under the "
-    "time-out's control: run in a worker the parent polls and kills, or consumed by a loop that tests the "
-    "deadline in every iteration (skipped only for timeout == -1). Partial results pass through the same "
-    "post-processing as complete ones (C05-R4..R6)."
+    "R1: every clock read in the search is resolved (time.X directly, through `from time import`, a local/module alias or a staticmethod class attribute) and must be a wall clock (time/monotonic/perf_counter); a CPU clock of the polling parent never expires. timed_out is initialised false before the search and set true only on a path where the search was cut short (the polling loop's exhaustion branch; the sequential deadline test); every early exit from a search loop is such a path. R2: timed_out is what both outputs receive as lcd_warning and what the footer / LCDWarning are keyed on. R3: every started worker is joined on every exit of the manager block; on the time-out path a live worker is killed with an uncatchable signal (os.kill(pid, SIGKILL) or Process.kill(); terminate() = SIGTERM can be caught or ignored through inherited handlers) before it is joined. R4: the shared list is copied inside the manager block, after the joins. R5: the search writes only locals, self.timed_out and copies - not self.dg, not the kernel's instruction forms (throughput and critical path cannot be affected). R6: every path-enumeration site reachable from check_for_loopcarried_dep is under the time-out's control: run in a worker the parent polls and kills, or consumed by a loop that tests the deadline in every iteration (skipped only for timeout == -1). Partial results pass through the same post-processing as complete ones (C05-R4..R6)."
 )
 NOT_DECIDED = "Wall-clock bounds, the kill timing relative to the workers' progress, and the process table after return."
 ASSUMPTIONS = ["os.kill(pid, SIGKILL) followed by join() reaps the worker", "one step of networkx's all_simple_paths generator is bounded by the graph size"]
 
 FN = "KernelDG.check_for_loopcarried_dep"
+
+
+WALL_CLOCKS = ("time", "monotonic", "perf_counter", "time_ns", "monotonic_ns", "perf_counter_ns")
+CPU_CLOCKS = ("process_time", "thread_time", "process_time_ns", "thread_time_ns", "clock")
+
+
+def _clock_of_ref(ctx, f, e, depth=0):
+    """Name of the time-module function a callee expression denotes (through class attributes, local and module aliases,
+    `from time import x`), else None."""
+    if depth > 3:
+        return None
+    if isinstance(e, ast.Call) and isinstance(e.func, ast.Name) and e.func.id == "staticmethod" and len(e.args) == 1:
+        return _clock_of_ref(ctx, f, e.args[0], depth + 1)
+    if isinstance(e, ast.Attribute) and isinstance(e.value, ast.Name):
+        if e.value.id == "time" and e.attr in WALL_CLOCKS + CPU_CLOCKS:
+            return e.attr
+        if e.value.id in ("self", "cls") or e.value.id in ctx.repo.classes:
+            cname = f.cls.name if e.value.id in ("self", "cls") and f.cls is not None else e.value.id
+            for c in ctx.repo.mro(cname):
+                v = ctx.repo.classes[c].class_attrs.get(e.attr)
+                if v is not None:
+                    return _clock_of_ref(ctx, f, v, depth + 1)
+        return None
+    if isinstance(e, ast.Name):
+        loc = [a for a in C.assigns_to(f.node, e.id) if isinstance(a, ast.Assign)]
+        if len(loc) == 1:
+            return _clock_of_ref(ctx, f, loc[0].value, depth + 1)
+        g = f.module.globals.get(e.id)
+        if g is not None:
+            return _clock_of_ref(ctx, f, g, depth + 1)
+        for n in f.module.tree.body:
+            if isinstance(n, ast.ImportFrom) and n.module == "time":
+                for al in n.names:
+                    if (al.asname or al.name) == e.id and al.name in WALL_CLOCKS + CPU_CLOCKS:
+                        return al.name
+    return None
+
+
+def _normalise_clocks(ctx, f):
+    """Every clock read in f, resolved; each is rewritten in place to the canonical `time.time()` so that the rules below do
+    not depend on which (wall) clock or which alias is used. Returns [(line, original text, time-module function)]."""
+    out = []
+    for n in list(ast.walk(f.node)):
+        if isinstance(n, ast.Call) and not n.args and not n.keywords:
+            k = _clock_of_ref(ctx, f, n.func)
+            if k is None:
+                continue
+            out.append((n.lineno, U(n), k))
+            new = ast.Attribute(value=ast.Name(id="time", ctx=ast.Load()), attr="time", ctx=ast.Load())
+            ast.copy_location(new, n.func)
+            ast.copy_location(new.value, n.func)
+            new._parent = n
+            new.value._parent = new
+            n.func = new
+    return out
+
+
 
 
 def run(ctx):
@@ -35,6 +81,7 @@ def run(ctx):
     f = ctx.func(FN)
     init = ctx.func("KernelDG.__init__")
     ext = ctx.func("KernelDG._extend_path")
+    clocks = _normalise_clocks(ctx, f)
     cfg = C.cfg_of(f)
     tmo = "timeout"
     if tmo not in f.params():
@@ -51,6 +98,12 @@ def run(ctx):
     ctx.check(len(call) == 1 and C.arg_of(call[0], ti, tmo) is not None and U(C.arg_of(call[0], ti, tmo)) == "timeout", "R1",
               "the constructor's timeout reaches the search", init.where(), "timeout is not passed to the search", init.qname,
               "timeout threading")
+    ctx.floor("R1", "clock reads in the search", len(clocks), 2)
+    for ln, txt, k in clocks:
+        ctx.check(k in WALL_CLOCKS, "R1", "the deadline is measured on a wall clock: %s -> time.%s" % (txt, k), "%s:%d" % (f.file, ln),
+                  "the search budget is measured with time.%s (via `%s`), the CPU time of the calling process: while the parent "
+                  "sleeps and polls its workers that clock stands still, so the time-out never expires and the analysis "
+                  "blocks until the exponential search ends" % (k, txt), f.qname, "clock %s" % txt)
     sets = [n for n, _ in pm.find("self.timed_out = True", f.node)]
     others = [n for n in ast.walk(f.node) if isinstance(n, ast.Assign) and U(n.targets[0]) == "self.timed_out" and n not in sets]
     for n in others:
